@@ -131,23 +131,31 @@ def run(tier):
         if cfg not in bins:
             continue
         t0, n0 = time.time(), len(rep.notes)
-        before = rep.stats.get('chacha_str_data_crypt', {}).get('run', 0)
         core.run_sharded(rep, bins[cfg], tier, config=cfg)
-        new = rep.notes[n0:]
-        st = ex = 0
-        for n in new:
-            m = re.search(r'shard=(\d+) states=(\d+) executions=(\d+)', n)
-            if m:
-                ex += int(m.group(3))
-                st = max(st, int(m.group(2)))     # every shard counts the same enumerated state set
-        tr = rep.stats.get('chacha_str_data_crypt', {}).get('run', 0) - before
+        # NOTE bfs <configuration> <states> <transitions run by the printing process> <executions>: printed after every
+        # BFS so that the bookkeeping survives a crash; distinct states = per configuration the largest state set seen
+        maxl, tr, ex = {}, 0, 0
+        for n in rep.notes[n0:]:
+            f = n.split('\t')
+            if f[0] == 'bfs' and len(f) == 5:
+                maxl[f[1]] = max(maxl.get(f[1], 0), int(f[2]))
+                tr += int(f[3])
+                ex += int(f[4])
+        st = sum(maxl.values())
+        if cfg.startswith('chacha:') and tr == 0:
+            # every process of this build died in its first transition(s): the crashed calls are the executions
+            crashes = sum(c for (t, cl), c in rep.clauses.items()
+                          if t == 'chacha_str_data_crypt' and (cl.startswith('crash') or cl == 'hang'))
+            st, tr, ex = 1, max(1, crashes), max(1, crashes)
+            rep.exhaustive = False
+            rep.notes.append('%s: the exploration crashed before the first BFS completed; counts are the crashed calls' % cfg)
         states += st
         trans += tr
         execs += ex
         per_build[cfg] = {'states': st, 'transitions': tr, 'executions': ex, 'wall_s': round(time.time() - t0, 1)}
         rep.configs.append({'name': cfg, 'status': 'run', 'wall_s': round(time.time() - t0, 1)})
-    # the per-shard NOTE lines are bookkeeping, not findings
-    keep = [n for n in rep.notes if not re.match(r'shard=\d+ states=', n)]
+    # the per-BFS NOTE lines are bookkeeping, not findings
+    keep = [n for n in rep.notes if not n.startswith('bfs\t')]
     for n in keep:
         if 'REFBAD' in n and not any('REFBAD' in e for e in rep.harness_errors):
             rep.harness_errors.append('a reference failed its anchors: ' + n)
@@ -157,3 +165,32 @@ def run(tier):
     rep.extra['traces_validated_against_impl'] = execs
     rep.extra['per_build'] = per_build
     rep.finish(core.make_replayer(lambda cfg: bins[cfg], tier))
+
+
+def replay(r, tier):
+    """./check C08 --tier <tier of the run that wrote the file> --replay replay/C08/<x>.replay
+    Rebuilds the configuration named in the file from the current tree and runs the single case."""
+    import sys
+    rep = core.Report(P, tier, 'model_checking', 'replay')
+    specs = [('chacha:' + m[0], 'harness/C08/h_chacha.c', m) for m in chacha_matrix('thorough') + chacha_matrix('quick')]
+    specs += [('gost:' + m[0], 'harness/C08/h_gost.c', m) for m in gost_matrix(tier)]
+    spec = [s for s in specs if s[0] == r.get('config')]
+    if not spec:
+        sys.stderr.write('unknown configuration %r\n' % r.get('config'))
+        return 2
+    bins = build_all(rep, spec[:1])
+    if not bins:
+        sys.stderr.write('\n'.join(rep.notes) + '\n')
+        return 2
+    p = subprocess.run([bins[spec[0][0]], '--tier', tier, '--only', '%s#%s' % (r['target'], r['index'])],
+                       capture_output=True, text=True, timeout=900)
+    hit = False
+    for line in p.stdout.splitlines():
+        if line.startswith('VIOL\t'):
+            print(line)
+            f = line.split('\t')
+            hit = hit or (f[1] == r['target'] and f[2] == r['clause'])
+    if r['clause'].startswith('crash') or r['clause'] == 'hang':
+        hit = p.returncode != 0 or 'DONE' not in p.stdout
+    print('reproduced' if hit else 'NOT reproduced')
+    return 1 if hit else 0
